@@ -78,6 +78,9 @@ static void sigsvc_execute(const Plan &p, const ExecOpts &, Result &r) {
     uint8_t extra[32]; fresh32(extra);
     const unsigned char *exp = p.c("extra") ? extra : NULL;
     int64_t cells = 0, model_cells = 0;
+    secp256k1_ecdsa_signature prev_sig; secp256k1_ecdsa_recoverable_signature prev_rsig;
+    { uint8_t m0[32]; fresh32(m0);
+      if (!L01(secp256k1_ecdsa_sign(ctxs[0], &prev_sig, m0, keys[0], NULL, NULL)) || !L01(secp256k1_ecdsa_sign_recoverable(ctxs[0], &prev_rsig, m0, keys[0], NULL, NULL))) r.violate("C01", "setup", "secp256k1_ecdsa_sign", "setup signature failed"); }
     int mod = (int)std::max<int64_t>(1, p.c("model_mod", 7)), off = (int)p.c("model_off");
     for (size_t si = 0; si < seqs.size() && r.ok; si++)
         for (int kc = 0; kc < 4 && r.ok; kc++)
@@ -116,7 +119,8 @@ static void sigsvc_execute(const Plan &p, const ExecOpts &, Result &r) {
                     uint8_t sig64[64]; int recid = -1; memset(sig64, 0xab, 64);
                     MonMark mk = mon_mark();
                     int ret;
-                    secp256k1_ecdsa_signature sig; secp256k1_ecdsa_recoverable_signature rsig;
+                    // the caller reuses its signature objects: they still hold the previous valid signature when this call starts
+                    secp256k1_ecdsa_signature sig = prev_sig; secp256k1_ecdsa_recoverable_signature rsig = prev_rsig;
                     if (entry == 0) { ret = L01(secp256k1_ecdsa_sign(ctx, &sig, msg, keys[kc], ctl_nonce, &ctl)); L01(secp256k1_ecdsa_signature_serialize_compact(ctx, sig64, &sig)); recid = 0; }
                     else { ret = L01(secp256k1_ecdsa_sign_recoverable(ctx, &rsig, msg, keys[kc], ctl_nonce, &ctl)); L01(secp256k1_ecdsa_recoverable_signature_serialize_compact(ctx, sig64, &recid, &rsig)); }
                     r.cmp();
